@@ -31,6 +31,8 @@ func init() {
 }
 
 func runC10(c *Ctx) {
+	// a transmit error from a worker aborts the scheduler: cancel, wait, return the error
+	scheduleExits(c, "R-C10-4")
 	c10Classify(c)
 	c10Backoff(c)
 	c10Waits(c)
@@ -468,6 +470,46 @@ func c10FailTogether(c *Ctx) {
 				}
 			}
 		}
+		// Deferred calls run last-in first-out: the deferred eg.Wait() blocks until the interrupt goroutine
+		// has seen ctx.Done(), so a cancel must run BEFORE it on every return (otherwise a read error that is
+		// not caused by cancellation leaves Listen blocked forever and the task half-alive).
+		var order []string // execution order at function exit
+		var defs []*ssa.Defer
+		for _, ci := range an.CallsIn(l) {
+			if d, ok := ci.(*ssa.Defer); ok {
+				defs = append(defs, d)
+			}
+		}
+		for i := len(defs) - 1; i >= 0; i-- {
+			d := defs[i]
+			e := c.XO.Of(d.Call.Value)
+			if e.Op == an.OpExtract && e.Idx == 1 && e.Args[0].Op == an.OpCall && e.Args[0].Fn != nil && e.Args[0].Fn.String() == "context.WithCancel" {
+				order = append(order, "cancel")
+			}
+			if mc, ok := d.Call.Value.(*ssa.MakeClosure); ok {
+				for _, inner := range an.CallsIn(mc.Fn.(*ssa.Function)) {
+					ie := c.XO.Of(inner.Common().Value)
+					if !inner.Common().IsInvoke() && ie.Op == an.OpExtract && ie.Idx == 1 && ie.Args[0].Op == an.OpCall && ie.Args[0].Fn != nil && ie.Args[0].Fn.String() == "context.WithCancel" {
+						order = append(order, "cancel")
+					}
+					if fo := an.CalleeObj(inner.Common()); fo != nil && fo.Name() == "Wait" {
+						order = append(order, "Wait")
+					}
+				}
+			}
+		}
+		okOrder := false
+		for _, o := range order {
+			if o == "cancel" {
+				okOrder = true
+				break
+			}
+			if o == "Wait" {
+				break
+			}
+		}
+		c.R.Check(okOrder, "R-C10-4", fn+":cancel-before-deferred-wait", fn, c.pos(l.Pos()), fmt.Sprintf("at function exit the deferred calls run in the order %v", order),
+			"cancel() runs before the deferred eg.Wait() (defers are LIFO)", "a read or handler error not caused by cancellation makes Listen block in eg.Wait() until the parent context ends: the errgroup never sees the error, nothing is torn down or re-dialled (half-alive task)")
 		c.R.Check(deferCancel && deferWait && interrupt, "R-C10-4", fn+":interruptible-read", fn, c.pos(l.Pos()),
 			fmt.Sprintf("defer cancel=%v, deferred eg.Wait=%v, goroutine SetReadDeadline(deadlineNow) after <-ctx.Done()=%v", deferCancel, deferWait, interrupt),
 			"a pending read is forced to time out on cancellation and the interrupt goroutine is always joined", "a blocked read survives cancellation: the task is half-alive")
